@@ -36,6 +36,7 @@ type T struct {
 	id     int
 	lo, hi int64 // interval (SInt only)
 	inf    bool  // real term that may carry the +-Inf sentinel
+	fl     uint8 // support: 1 = depends on a map-order pick / RNG variable, 2 = depends on a harness input
 }
 
 const (
@@ -82,6 +83,14 @@ func mk(op string, sort Sort, name string, k int64, a ...*T) *T {
 	for _, x := range a {
 		if x.inf {
 			t.inf = true
+		}
+		t.fl |= x.fl
+	}
+	if op == "var" {
+		if strings.HasPrefix(name, "pick") || strings.HasPrefix(name, "vh_randintn") || strings.HasPrefix(name, "vh_unixnano") {
+			t.fl = 1
+		} else {
+			t.fl = 2
 		}
 	}
 	table[key] = t
